@@ -1,7 +1,9 @@
 package rules
 
 import (
+	"go/constant"
 	"go/token"
+	"go/types"
 
 	"golang.org/x/tools/go/ssa"
 
@@ -38,16 +40,78 @@ func ruleLogShapes(c *eng.Ctx) {
 	}
 	if fn := c.Fn(cl + "newSegment"); fn != nil {
 		isNew := eng.BoolEdges(fn, eng.Param("isNew"), true)
-		exists := eng.BoolEdges(fn, call(cl+"exists"), true)
+		notNew := eng.BoolEdges(fn, eng.Param("isNew"), false)
 		okRet := false
 		for _, r := range eng.Returns(fn) {
 			if len(r.Results) == 2 && eng.Global(cl+"ErrSegmentExists")(r.Results[1]) {
 				g1, _ := eng.GuardedBy(fn, r, isNew)
-				g2, _ := eng.GuardedBy(fn, r, exists)
-				okRet = g1 && g2 && len(isNew) > 0 && len(exists) > 0
+				okRet = g1 && len(isNew) > 0
 			}
 		}
-		c.Check(okRet, "a new segment refuses an existing file", p.Pos(fn.Pos()), "ErrSegmentExists exactly on isNew ∧ exists(logPath)", "newSegment does not refuse (only) an existing log file when asked for a new segment")
+		c.Check(okRet, "a new segment refuses an existing file", p.Pos(fn.Pos()), "ErrSegmentExists only when asked for a new segment", "newSegment does not refuse (only) an existing log file when asked for a new segment")
+		// The existence test and the creation must be one atomic step: split() runs concurrently in the appender and in the
+		// cleaner loop, and the loser of the compare-and-swap deletes "its" files. If both opened the same files, the
+		// winner's log and index are unlinked under it.
+		excl := int64(0)
+		if o, ok := p.DepObject("os", "O_EXCL").(*types.Const); ok && o != nil {
+			excl, _ = constant.Int64Val(o.Val())
+		}
+		var hasBit func(v ssa.Value, blk *ssa.BasicBlock, depth int) bool
+		hasBit = func(v ssa.Value, blk *ssa.BasicBlock, depth int) bool {
+			if depth > 6 {
+				return false
+			}
+			switch x := v.(type) {
+			case *ssa.Const:
+				if x.Value == nil {
+					return false
+				}
+				n, ok := constant.Int64Val(x.Value)
+				return ok && n&excl != 0
+			case *ssa.BinOp:
+				if x.Op == token.OR {
+					return hasBit(x.X, blk, depth+1) || hasBit(x.Y, blk, depth+1)
+				}
+			case *ssa.Convert:
+				return hasBit(x.X, blk, depth+1)
+			case *ssa.Phi:
+				for i, e := range x.Edges {
+					pred := x.Block().Preds[i]
+					onlyNotNew := false
+					for _, ne := range notNew {
+						if ne.From == pred && ne.To() == x.Block() {
+							onlyNotNew = true
+						}
+					}
+					if !onlyNotNew && len(pred.Instrs) > 0 {
+						if g, _ := eng.GuardedBy(fn, pred.Instrs[len(pred.Instrs)-1], notNew); g {
+							onlyNotNew = true
+						}
+					}
+					if onlyNotNew {
+						continue // this value only reaches the call when an existing segment is reopened
+					}
+					if !hasBit(e, pred, depth+1) {
+						return false
+					}
+				}
+				return true
+			}
+			return false
+		}
+		opens := eng.CallsIn(fn, "os.OpenFile")
+		okExcl := excl != 0 && len(opens) > 0 && len(notNew) > 0
+		pos := p.Pos(fn.Pos())
+		for _, oc := range opens {
+			if g, _ := eng.GuardedBy(fn, oc, notNew); g {
+				continue // reached only when reopening
+			}
+			pos = p.InstrPos(oc)
+			if !hasBit(oc.Common().Args[1], oc.Block(), 0) {
+				okExcl = false
+			}
+		}
+		c.Check(okExcl, "a new segment's log file is created exclusively", pos, "os.OpenFile(…|O_EXCL) whenever isNew may be true", "newSegment tests for the file and creates it in two steps (no O_EXCL on the isNew path): two concurrent split() calls — the appender and the cleaner loop both roll segments — can open the same log and index files, and the loser of the compare-and-swap then deletes the files the new active segment is writing to")
 	}
 	// index bounds: an entry is readable iff it lies entirely below the write position
 	if fn := c.Fn(cl + "(*index).ReadAt"); fn != nil {
